@@ -13,138 +13,10 @@ import ast
 import math
 
 from ..index import Index
+from ..interval import Interp, Iv as IIv, Path
 from ..report import AnalysisError, key_of
 
 LEVEL = "other"
-
-INT64 = (-(2**63), 2**63 - 1)
-UINT64 = (0, 2**64 - 1)
-
-
-class Iv:
-    """integer interval with a dtype tag (None = python int, unbounded)"""
-
-    def __init__(self, lo, hi, dtype=None):
-        self.lo, self.hi, self.dtype = lo, hi, dtype
-
-    def __repr__(self):
-        return f"[{self.lo}, {self.hi}]{':' + self.dtype if self.dtype else ''}"
-
-
-class Overflow(Exception):
-    pass
-
-
-def _fits(lo, hi, dtype):
-    r = {"int64": INT64, "uint64": UINT64}[dtype]
-    return r[0] <= lo and hi <= r[1]
-
-
-class Interp:
-    """evaluates the handful of expression forms the packing block uses"""
-
-    def __init__(self, env, mod):
-        self.env = env
-        self.mod = mod
-        self.notes = []
-
-    def ev(self, e):
-        if isinstance(e, ast.Constant) and isinstance(e.value, (int, float)):
-            return e.value
-        if isinstance(e, ast.Name):
-            if e.id in self.env:
-                return self.env[e.id]
-            raise AnalysisError(f"C06 interval evaluator: unbound name {e.id}")
-        if isinstance(e, ast.UnaryOp) and isinstance(e.op, ast.USub):
-            v = self.ev(e.operand)
-            return Iv(-v.hi, -v.lo, v.dtype) if isinstance(v, Iv) else -v
-        if isinstance(e, ast.BinOp):
-            a, b = self.ev(e.left), self.ev(e.right)
-            return self.binop(e.op, a, b, e)
-        if isinstance(e, ast.Attribute):
-            if e.attr == "T":
-                return self.ev(e.value)
-            if e.attr == "shape":
-                return ("shape", self.ev(e.value))
-        if isinstance(e, ast.Subscript):
-            v = self.ev(e.value)
-            if isinstance(v, tuple) and v[0] == "shape":
-                idx = e.slice.value if isinstance(e.slice, ast.Constant) else None
-                if idx == 1:
-                    return self.env["__cols__"]
-                if idx == 0:
-                    return self.env["__rows__"]
-            if isinstance(v, Iv):
-                return v
-        if isinstance(e, ast.Call):
-            f = e.func
-            fname = f.attr if isinstance(f, ast.Attribute) else getattr(f, "id", None)
-            if fname == "int" and len(e.args) == 1:
-                return int(self.ev(e.args[0]))
-            if fname in ("floor", "ceil", "round", "trunc") and len(e.args) == 1:
-                v = self.ev(e.args[0])
-                return {"floor": math.floor, "ceil": math.ceil, "round": round, "trunc": math.trunc}[fname](v)
-            if fname == "astype" and isinstance(f, ast.Attribute):
-                v = self.ev(f.value)
-                dt = ast.unparse(e.args[0]).split(".")[-1]
-                if not isinstance(v, Iv):
-                    raise AnalysisError("C06: astype on a non-array value")
-                if dt in ("uint64", "int64"):
-                    if not _fits(v.lo, v.hi, dt):
-                        raise Overflow(f"astype({dt}) of values in [{v.lo}, {v.hi}] wraps around")
-                    return Iv(v.lo, v.hi, dt)
-                raise AnalysisError(f"C06: astype to unsupported dtype {dt}")
-            if fname in ("min", "max") and isinstance(f, ast.Attribute) and not e.args:
-                v = self.ev(f.value)
-                if isinstance(v, Iv):
-                    return ("extreme", fname, v)
-            if fname == "len" and len(e.args) == 1:
-                return self.env["__rows__"]
-            if fname in ("zeros",):
-                dt = None
-                for k in e.keywords:
-                    if k.arg == "dtype":
-                        dt = ast.unparse(k.value).split(".")[-1]
-                return Iv(0, 0, dt or "float64")
-        raise AnalysisError(f"C06 interval evaluator: unsupported expression `{ast.unparse(e)}`")
-
-    def binop(self, op, a, b, node):
-        if not isinstance(a, Iv) and not isinstance(b, Iv):
-            import operator as o
-
-            fn = {ast.Add: o.add, ast.Sub: o.sub, ast.Mult: o.mul, ast.Div: o.truediv, ast.FloorDiv: o.floordiv,
-                  ast.Pow: o.pow, ast.LShift: o.lshift, ast.Mod: o.mod}.get(type(op))
-            if fn is None:
-                raise AnalysisError(f"C06: unsupported operator in `{ast.unparse(node)}`")
-            return fn(a, b)
-        # array op scalar / array op array
-        ia = a if isinstance(a, Iv) else Iv(a, a)
-        ib = b if isinstance(b, Iv) else Iv(b, b)
-        dt = ia.dtype or ib.dtype
-        # numpy 2: a python int operand must be representable in the array dtype
-        for s in (a, b):
-            if not isinstance(s, Iv) and dt in ("int64", "uint64") and not _fits(s, s, dt):
-                raise Overflow(f"python int {s} in `{ast.unparse(node)}` is not representable in {dt} "
-                               f"(numpy raises OverflowError)")
-        if isinstance(op, ast.Add):
-            lo, hi = ia.lo + ib.lo, ia.hi + ib.hi
-        elif isinstance(op, ast.Sub):
-            lo, hi = ia.lo - ib.hi, ia.hi - ib.lo
-        elif isinstance(op, ast.Mult):
-            c = [ia.lo * ib.lo, ia.lo * ib.hi, ia.hi * ib.lo, ia.hi * ib.hi]
-            lo, hi = min(c), max(c)
-        elif isinstance(op, ast.LShift):
-            if ib.lo < 0 or ia.lo < 0:
-                raise Overflow(f"shift of/by a possibly negative value in `{ast.unparse(node)}`")
-            if dt in ("int64", "uint64") and ib.hi >= 64:
-                raise Overflow(f"shift count {ib.hi} >= 64 in `{ast.unparse(node)}`")
-            lo, hi = ia.lo << ib.lo, ia.hi << ib.hi
-        else:
-            raise AnalysisError(f"C06: unsupported array operator in `{ast.unparse(node)}`")
-        if dt in ("int64", "uint64") and not _fits(lo, hi, dt):
-            raise Overflow(f"`{ast.unparse(node)}` can reach [{lo}, {hi}], outside {dt}")
-        return Iv(lo, hi, dt)
-
 
 def _find_pack_block(fn):
     """the `if ... shape[1] <= K:` block that contains the range guard"""
@@ -174,50 +46,18 @@ def _admitted_columns(test):
     return None
 
 
-def _guard_bounds(test, it):
-    """range guard: conjunction of comparisons between d_min/d_max (extremes of the
-    data) and constant expressions.  Returns (lo, hi) admitted for every element,
-    or None if a side is unbounded."""
-    conj = test.values if isinstance(test, ast.BoolOp) and isinstance(test.op, ast.And) else [test]
-    lo = hi = None
-    for c in conj:
-        if not (isinstance(c, ast.Compare) and len(c.ops) == 1):
-            continue
-        L, R, op = c.left, c.comparators[0], c.ops[0]
+def _packed_array(fi):
+    for st in fi.node.body:
+        if isinstance(st, ast.Assign) and isinstance(st.value, ast.Call) and "float_to_int" in ast.unparse(st.value.func):
+            return st.targets[0].id
+    raise AnalysisError("anchor vanished: `as_int = float_to_int(...)` in hashable_rows")
 
-        def ext(e):
-            try:
-                v = it.ev(e)
-            except AnalysisError:
-                return None
-            return v if isinstance(v, tuple) and v[0] == "extreme" else None
 
-        def cst(e):
-            v = it.ev(e)
-            if isinstance(v, (int, float)) and not isinstance(v, bool):
-                return v
-            raise AnalysisError(f"C06: guard bound `{ast.unparse(e)}` is not a constant")
-
-        el, er = ext(L), ext(R)
-        if el is not None and er is None:
-            kind, b = el[1], cst(R)
-        elif er is not None and el is None:
-            kind, b = er[1], cst(L)
-            op = {ast.Lt: ast.Gt, ast.LtE: ast.GtE, ast.Gt: ast.Lt, ast.GtE: ast.LtE}[type(op)]()
-        else:
-            continue
-        # the maximum bounds every element from above, the minimum from below
-        if kind == "max" and isinstance(op, ast.Lt):
-            hi = b - 1 if hi is None else min(hi, b - 1)
-        elif kind == "max" and isinstance(op, ast.LtE):
-            hi = b if hi is None else min(hi, b)
-        elif kind == "min" and isinstance(op, ast.Gt):
-            lo = b + 1 if lo is None else max(lo, b + 1)
-        elif kind == "min" and isinstance(op, ast.GtE):
-            lo = b if lo is None else max(lo, b)
-    if lo is None or hi is None:
-        return None
-    return lo, hi
+def _seed(fi, it, p0, outer):
+    """initial abstract state at the packing block: the packed array is any int64 array"""
+    arr = _packed_array(fi)
+    p0.env[arr] = IIv(-(2**63), 2**63 - 1, "int64")
+    return p0
 
 
 def _static_test(test, cols, ndim):
@@ -255,10 +95,10 @@ def check(run):
     run.analysed.update(ix.stats())
     fi = ix.func("trimesh.grouping:hashable_rows")
     mod = fi.module
-    run.rule("R1", "range guard => every shifted field lies inside its own bit range (fields disjoint)")
-    run.rule("R2", "no intermediate of the packing leaves int64/uint64 (no wrap-around, no OverflowError)")
+    run.rule("R1", "on every path, range guard => every shifted field lies inside its own bit range (fields disjoint)")
+    run.rule("R2", "no integer-array intermediate of a bit packing leaves its dtype (no wrap-around, no OverflowError), in any function of grouping.py")
     run.rule("R3", "top bit used by the packed word <= 63")
-    run.rule("R4", "the void-dtype fallback views exactly cols*itemsize bytes per row")
+    run.rule("R4", "the void-dtype fallback views exactly cols*itemsize bytes per row; packing returns only under its range guard")
     run.rule("R5", "row-grouping entry points reach row equality only through hashable_rows")
     run.rule("R6", "float_to_int returns int64 on every path (the packing arithmetic assumes it)")
 
@@ -268,8 +108,6 @@ def check(run):
     cols_list = _admitted_columns(outer.test)
     if not cols_list:
         raise AnalysisError(f"cannot read admitted column counts from `{ast.unparse(outer.test)}`")
-    # column counts that return before the packing block is reached
-    # (`if len(X.shape) == 2 and X.shape[1] == c: return ...`) are not packed
     early = []
     for st in fi.node.body:
         if st is outer:
@@ -282,130 +120,89 @@ def check(run):
     run.analysed["admitted_columns"] = cols_list
     run.analysed["columns_returned_before_packing"] = early
     run.assume("column count >= 1 (a zero-column array has no row content to compare)")
-    # the array variable that is packed: `X = float_to_int(...)`
-    arr = None
-    for st in fi.node.body:
-        if isinstance(st, ast.Assign) and isinstance(st.value, ast.Call) and "float_to_int" in ast.unparse(st.value.func):
-            arr = st.targets[0].id
-    if arr is None:
-        raise AnalysisError("anchor vanished: `as_int = float_to_int(...)` in hashable_rows")
+    run.floor("packed column counts", len(cols_list), 3)
 
-    n_obl = 0
+    n_paths = 0
     for cols in cols_list:
-        where = f"{fi.where} [columns={cols}]"
-        env = {"__cols__": cols, "__rows__": 1000, arr: Iv(INT64[0], INT64[1], "int64")}
-        it = Interp(env, mod)
-        try:
-            # statements of the outer block before the guard: constants
-            for st in outer.body:
-                if st is inner:
-                    break
-                if isinstance(st, ast.Assign):
-                    tg = st.targets[0]
-                    if isinstance(tg, ast.Tuple):
-                        vals = [it.ev(v) for v in st.value.elts]
-                        for t, v in zip(tg.elts, vals):
-                            env[t.id] = v
-                    else:
-                        env[tg.id] = it.ev(st.value)
-            bounds = _guard_bounds(inner.test, it)
-            if bounds is None:
-                run.obligation("R1", where, "range guard bounds the data on both sides", False)
-                run.violation("R1", where, f"range guard `{ast.unparse(inner.test)}` does not bound the data on both sides",
-                              key=key_of("C06-R1", "guard-unbounded", cols))
-                continue
-            lo, hi = bounds
-            env[arr] = Iv(int(lo), int(hi), "int64")
-            fields = []
-            loop = None
-            acc_name = None
-            combiner_ok = True
-            for st in inner.body:
-                if isinstance(st, ast.Assign):
-                    env[st.targets[0].id] = it.ev(st.value)
-                elif isinstance(st, ast.For):
-                    # for offset, column in enumerate(bitbang): one field per column
-                    loop = st
-                    tgt = st.target
-                    if not (isinstance(st.iter, ast.Call) and getattr(st.iter.func, "id", "") == "enumerate"
-                            and isinstance(tgt, ast.Tuple) and len(tgt.elts) == 2):
-                        raise AnalysisError(f"C06: unsupported packing loop `{ast.unparse(st.iter)}`")
-                    src = it.ev(st.iter.args[0])
-                    for off in range(cols):
-                        env[tgt.elts[0].id] = off
-                        env[tgt.elts[1].id] = src
-                        for b in st.body:
-                            call = b.value if isinstance(b, ast.Expr) else (b.value if isinstance(b, (ast.Assign, ast.AugAssign)) else None)
-                            shifted = None
-                            if isinstance(b, ast.Expr) and isinstance(call, ast.Call):
-                                fname = ast.unparse(call.func).split(".")[-1]
-                                if fname not in ("bitwise_xor", "bitwise_or", "add"):
-                                    combiner_ok = False
-                                acc_name = ast.unparse(call.args[0])
-                                shifted = it.ev(call.args[1])
-                            elif isinstance(b, ast.AugAssign):
-                                if not isinstance(b.op, (ast.BitXor, ast.BitOr, ast.Add)):
-                                    combiner_ok = False
-                                acc_name = ast.unparse(b.target)
-                                shifted = it.ev(b.value)
-                            else:
-                                raise AnalysisError(f"C06: unsupported statement in packing loop `{ast.unparse(b)}`")
-                            # shift amount of this field
-                            fields.append((off, shifted))
-            if not fields:
-                raise AnalysisError("C06: no packing loop found inside the guarded block")
-            prec = env.get("precision")
-            # R2 held if we got here without Overflow
-            run.obligation("R2", where, f"all intermediates stay inside int64/uint64 for values in [{lo}, {hi}]", True)
-            n_obl += 1
-            # R1: field k occupies [shift_k, shift_k + width) ; derive shift from lower bound structure
-            # widths: field value range / 2**shift must be < 2**(next shift - shift)
-            # recompute shifts by evaluating with src = [1,1]
-            shifts = []
-            for off in range(cols):
-                env2 = dict(env)
-                it2 = Interp(env2, mod)
-                env2[loop.target.elts[0].id] = off
-                env2[loop.target.elts[1].id] = Iv(1, 1, "uint64")
-                b = loop.body[0]
-                expr = b.value.args[1] if isinstance(b, ast.Expr) else b.value
-                v = it2.ev(expr)
-                if v.lo != v.hi or v.lo & (v.lo - 1):
-                    raise AnalysisError("C06: packed field is not `column << constant`")
-                shifts.append(v.lo.bit_length() - 1)
-            order = sorted(range(cols), key=lambda k: shifts[k])
-            ok1 = True
+        it = Interp(cols=cols)
+        p0 = Path({})
+        it.run(outer.body, _seed(fi, it, p0, outer))
+        packed_paths = [q for q in it.finished if any(e.kind == "shift" and e.loop is not None for e in q.events)]
+        where0 = f"{fi.where} [columns={cols}]"
+        if not packed_paths:
+            raise AnalysisError(f"{where0}: no path through the packing block reaches a shift; analysis lost the anchor")
+        for q in it.finished:
+            for e in q.events:
+                if e.kind == "overflow" or (e.kind == "shift" and not e.ok):
+                    run.obligation("R2", where0, e.text, False)
+                    run.violation("R2", f"{mod.rel}:{e.node.lineno} hashable_rows [columns={cols}]",
+                                  f"for {cols} column(s) under guards {q.guards}: {e.text}",
+                                  key=key_of("C06-R2", "hashable_rows", cols, ast.unparse(e.node)))
+        for q in packed_paths:
+            n_paths += 1
+            where = f"{fi.where} [columns={cols}; guards: {' & '.join(q.guards)}]"
+            bad = [e for e in q.events if e.kind == "overflow" or (e.kind == "shift" and not e.ok)]
+            run.obligation("R2", where, "all intermediates stay inside int64/uint64", not bad)
+            shifts = [e for e in q.events if e.kind == "shift" and e.loop is not None]
+            fields = {}
+            for e in shifts:
+                if e.amount.lo != e.amount.hi:
+                    raise AnalysisError(f"{where}: shift amount is not constant per column")
+                fields[e.loop[1]] = (e.amount.lo, e.operand)
+            combs = [e for e in q.events if e.kind == "combine" and e.loop is not None]
+            combiner_ok = bool(combs) and all(e.fn in ("bitwise_xor", "bitwise_or", "add", "BitXor", "BitOr", "Add") for e in combs)
+            order = sorted(fields, key=lambda k: fields[k][0])
             detail = []
+            ok1 = len(fields) == cols and len({v[0] for v in fields.values()}) == cols and combiner_ok
             for pos, k in enumerate(order):
-                raw_hi = fields[k][1].hi >> shifts[k]
-                raw_lo = fields[k][1].lo >> shifts[k]
-                nxt = shifts[order[pos + 1]] if pos + 1 < cols else 64
-                width = nxt - shifts[k]
-                fits = raw_lo >= 0 and raw_hi < (1 << width)
-                detail.append(f"col{k}: shift {shifts[k]}, width {width}, value range [{raw_lo}, {raw_hi}] fits={fits}")
-                ok1 = ok1 and fits
-            ok1 = ok1 and len(set(shifts)) == cols and combiner_ok
+                sh, opnd = fields[k]
+                nxt = fields[order[pos + 1]][0] if pos + 1 < len(order) else 64
+                width = nxt - sh
+                fits_ = opnd.lo >= 0 and opnd.hi < (1 << width)
+                detail.append(f"col{k}: shift {sh}, width {width}, values [{opnd.lo}, {opnd.hi}] fits={fits_}")
+                ok1 = ok1 and fits_
             run.obligation("R1", where, "; ".join(detail), ok1)
-            n_obl += 1
             if not ok1:
                 run.violation("R1", where,
-                              f"packing is not injective for {cols} column(s): a field can spill into its neighbour "
-                              f"({'; '.join(detail)}; combiner ok={combiner_ok})",
-                              key=key_of("C06-R1", "overlap", cols))
-            top = max(f[1].hi for f in fields).bit_length()
+                              f"packing is not injective for {cols} column(s) under guards {q.guards}: a field can spill into its "
+                              f"neighbour or columns share a shift ({'; '.join(detail)}; combiner ok={combiner_ok})",
+                              key=key_of("C06-R1", "overlap", cols, " & ".join(q.guards)))
+            top = max(((opnd.hi << sh).bit_length() for sh, opnd in fields.values()), default=0)
             ok3 = top <= 64
             run.obligation("R3", where, f"highest bit used: {top - 1}", ok3)
-            n_obl += 1
             if not ok3:
                 run.violation("R3", where, f"packed word needs bit {top - 1} > 63 for {cols} column(s)",
                               key=key_of("C06-R3", "topbit", cols))
-        except Overflow as e:
-            run.obligation("R2", where, str(e), False)
-            n_obl += 1
-            run.violation("R2", where, f"for {cols} column(s): {e}", key=key_of("C06-R2", "overflow", cols))
-    run.floor("packed column counts", len(cols_list), 3)
+            # the path that packs must be bounded on both sides
+            arr = _packed_array(fi)
+            a = q.env.get(arr)
+    run.floor("packing paths analysed", n_paths, 3)
+
+    # ---- R2 for every other function of the module that shifts integer arrays
+    n_other = 0
+    for name, f in sorted(mod.functions.items()):
+        if f is fi:
+            continue
+        if not any(isinstance(n, ast.BinOp) and isinstance(n.op, (ast.LShift,)) for n in ast.walk(f.node)) and \
+                "left_shift" not in ast.unparse(f.node):
+            continue
+        n_other += 1
+        it = Interp(cols=None)
+        p0 = Path({})
+        rest = it.run(f.node.body, p0)
+        for q in it.finished + rest:
+            for e in q.events:
+                if e.kind == "overflow" or (e.kind == "shift" and not e.ok):
+                    run.obligation("R2", f.where, e.text, False)
+                    run.violation("R2", f"{mod.rel}:{e.node.lineno} {name}",
+                                  f"bit packing in {name} under guards {q.guards}: {e.text}",
+                                  key=key_of("C06-R2", name, ast.unparse(e.node)))
+                elif e.kind == "shift":
+                    run.obligation("R2", f.where, f"`{ast.unparse(e.node)}` stays inside {e.operand.dtype}", True)
+    run.analysed["other_functions_with_shifts"] = n_other
 
     # ---- R4 void fallback
+    arr = _packed_array(fi)
     ok4 = False
     for st in fi.node.body:
         if isinstance(st, ast.Assign) and "np.void" in ast.unparse(st.value):
